@@ -113,6 +113,10 @@ def run(model, tier="quick"):
     res.units["guard_primitives"] = base_helpers(res, model, ("require", "sub_base", "pm"))   # the guard forms the rule accepts
     from ..rules.rollback import rollback_rule
     res.units["compensation_handlers"] = rollback_rule(model, res)
+    from ..rules.fresh import fresh_rule
+    if "R-FRESH" not in res.rules:
+        res.rules.append("R-FRESH")
+    fresh_rule(model, res, scope=('demeter/aave/', 'demeter/uniswap/', 'demeter/squeeth/', 'demeter/deribit/', 'demeter/gmx/'))
     res.assumptions = ["indices, prices and decimals are positive (used to scale guards)",
                        "payout = guarded amount is established by the per-market ledger identities (C07, C09, C10, C14, C15, C17)"]
     res.not_decided = ["conservation of the total net value over arbitrary sequences (1e-5 dust accumulation, swaps losing exactly the fee)"]
